@@ -54,6 +54,8 @@ const (
 	kVal      ccKind = "val"      // an evaluated slip.Object                        → Val
 	kHeap     ccKind = "heap"
 	kUnit     ccKind = "unit"
+	kVars     ccKind = "vars"    // map[string]slip.Object of an instance (Unbound = none) → AList (Option Val)
+	kTypeObj  ccKind = "typeobj" // obj.Type: the class object of an instance (context parameter T)
 )
 
 func (k ccKind) lean() string {
@@ -94,6 +96,8 @@ func (k ccKind) lean() string {
 		return "Heap"
 	case kUnit:
 		return "Unit"
+	case kVars:
+		return "AList (Option Val)"
 	}
 	return "?"
 }
@@ -421,6 +425,15 @@ func (c *ccCtx) selector(t *ast.SelectorExpr) (string, ccKind, error) {
 			return c.heap(), kHeap, nil
 		}
 	}
+	if f, ok := c.isRecvField(t); ok && c.fn.recv == "object" {
+		switch f {
+		case "vars":
+			return "s.vars", kVars, nil
+		case "Type":
+			return "T", kTypeObj, nil
+		}
+		return "", "", c.errf(t, "unknown receiver field")
+	}
 	if f, ok := c.isRecvField(t); ok && c.fn.recv == "class" {
 		if k, ok := ccClassFields[f]; ok {
 			return "s." + f, k, nil
@@ -551,6 +564,9 @@ func (c *ccCtx) call(t *ast.CallExpr) (string, ccKind, error) {
 				if k == kClass || k == kStr {
 					return x, kStr, nil
 				}
+				if k == kSym { // the name of a symbol, compared with a class name given as a symbol
+					return x, kSym, nil
+				}
 			}
 		case "append":
 			if len(t.Args) >= 2 {
@@ -632,6 +648,19 @@ func (c *ccCtx) call(t *ast.CallExpr) (string, ccKind, error) {
 			x, k, err := c.expr(f.X)
 			if err != nil {
 				return "", "", err
+			}
+			if k == kTypeObj { // the getters of isStandardClass on the instance's class object
+				switch {
+				case name == "precedenceList" && len(xs) == 0:
+					return x + ".precedence", kSyms, nil
+				case name == "initFormMap" && len(xs) == 0:
+					return x + ".initForms", kSlotMap, nil
+				case name == "defaultsMap" && len(xs) == 0:
+					return x + ".defaultInitArgs", kArgMap, nil
+				case name == "initArgDefs" && len(xs) == 1:
+					return "((" + x + ".initArgs.get? " + xs[0] + ").getD [])", kSlots, nil
+				}
+				return "", "", c.errf(t, "unsupported method of the class object of an instance")
 			}
 			if k != kClass {
 				return "", "", c.errf(t, "method call on a %s", k)
@@ -1625,6 +1654,11 @@ func ccSpecs() []ccSpec {
 		{fn: ccFn{goName: "StandardClass.mergeSupers", lean: "mergeSupers", recv: "class", ret: kBool, heapCtx: true,
 			tracked: []string{"inherit", "precedence", "initForms"},
 			doc:     "(c *StandardClass) mergeSupers() bool — the statements that assign inherit, precedence, initForms"}},
+		{fn: ccFn{goName: "StandardObject.IsA", lean: "IsA", recv: "object", ret: kBool,
+			params: []ccParam{{"class", kSym}},
+			doc:    "(obj *StandardObject) IsA(class string) bool"}},
+		{fn: ccFn{goName: "StandardObject.Hierarchy", lean: "Hierarchy", recv: "object", ret: kSyms,
+			doc: "(obj *StandardObject) Hierarchy() []slip.Symbol"}},
 		{fn: ccFn{goName: "makeClassesReady", lean: "makeClassesReady", ret: kUnit, heapSt: true, fuel: true,
 			params: []ccParam{{"p", kHeap}},
 			doc:    "makeClassesReady(p *slip.Package)"},
@@ -1710,6 +1744,10 @@ func genClosCode(repo string) (string, error) {
 			}
 		}
 		sigma := "GClass"
+		if sp.fn.recv == "object" {
+			sigma = "GObj"
+			sig = " (T : GClass)" + sig
+		}
 		if sp.fn.recv == "" {
 			sigma = sp.fn.lean + ".St"
 			fmt.Fprintf(&out, "structure %s where\n", sigma)
@@ -1754,11 +1792,13 @@ func genClosCode(repo string) (string, error) {
 			return "", err
 		}
 		fmt.Fprintf(&out, "/-- %s -/\n", sp.fn.doc)
-		fmt.Fprintf(&out, "def %s.body%s (s : %s) : Ctl %s %s :=\n", sp.fn.lean, sig, sigma, sigma, sp.fn.ret.lean())
+		fmt.Fprintf(&out, "def %s.body%s (s : %s) : Ctl %s (%s) :=\n", sp.fn.lean, sig, sigma, sigma, sp.fn.ret.lean())
 		out.WriteString(c.b.String())
 		out.WriteString("\n")
 		// wrappers
 		switch {
+		case sp.fn.recv == "object" && sp.fn.pure():
+			fmt.Fprintf(&out, "def %s (T : GClass) (s : GObj)%s : %s := (%s.body T%s s).value %s\n\n", sp.fn.lean, strings.TrimPrefix(sig, " (T : GClass)"), sp.fn.ret.lean(), sp.fn.lean, call, sp.fn.ret.zero())
 		case sp.fn.recv == "class" && sp.fn.pure():
 			hp := ""
 			if sp.fn.heapCtx {
